@@ -475,6 +475,68 @@ def ts_worker(task):
     return dict(variant=variant, n=n, viols=viols, sample=sample)
 
 
+LONG_W = {
+    "unit weights, values 1..n": lambda i: (1, i + 1),
+    "weights 1,2,0,3 cycling, ramp": lambda i: ((1, 2, 0, 3)[i % 4],
+                                                 0.5 * i),
+    "weight 0.5, constant 3.25": lambda i: (0.5, 3.25),
+    "weights i+1, alternating +-1": lambda i: (i + 1, (-1) ** i),
+    "every third weight zero, values i*i": lambda i: (0 if i % 3 == 2
+                                                      else 1.5, i * i),
+    "fractions 1/3, 0.1": lambda i: (1 / 3, 0.1 * (i % 7)),
+}
+
+
+def long_worker(task):
+    """long deterministic series, checked after EVERY observation up to 70
+    and at marks beyond: nothing may change with the number of observations
+    made so far; with a re-initialisation at position r"""
+    variant, name, N = task
+    f = LONG_W[name]
+    n = 0
+    viols = []
+    marks = set(range(1, 71)) | {100, 128, 129, 200, 500}
+    for reinit_at in (None, 5, 16, 17, 33):
+        t = make("w", variant)
+        obs = []
+        for i in range(N):
+            if reinit_at == i:
+                t.initialize()
+                obs = []
+            w, v = f(i)
+            try:
+                feed_w(t, variant, w, v)
+            except Exception as ex:  # noqa
+                viols.append(("operation-raised", [name, i, reinit_at],
+                              "%s: %s" % (type(ex).__name__, ex)))
+                break
+            obs.append((w, v))
+            if len(obs) in marks:
+                n += 1
+                bad = compare_weighted(t, obs)
+                if bad:
+                    viols.append(("long:" + bad[0][0],
+                                  [name, len(obs), reinit_at], bad[0]))
+                    break
+        s_ = getattr(t, "_verif_sub", None)
+        if s_ is not None and s_.bad:
+            viols.append(("published-value", [name, reinit_at], s_.bad[0]))
+    # the timestamped variant: n intervals, closed
+    for k in (list(range(1, 49)) + [64, 65, 100] if N > 100
+              else list(range(1, 41))):
+        ts = [0.5 * i for i in range(k)]
+        vals = [f(i)[1] for i in range(k)]
+        for tend in (ts[-1], ts[-1] + 1.5):
+            n += 1
+            tv = "plain" if variant == "plain" else variant
+            bad = check_ts_history(tv, ts, vals, tend, False)
+            if bad:
+                viols.append(("long-ts:" + str(bad[0][0]),
+                              [name, k, tend], bad[0]))
+                break
+    return n, viols, variant, name
+
+
 def reinit_listener_check():
     """a subscriber that reacts to the 'initialized' notification by
     registering the current value of its signal again: that observation
@@ -656,6 +718,21 @@ def run(ctx):
                                                                b), rep,
                           rank=len(rep["ts"]))
     ctx.part("timestamp histories", histories=nts, max_len=K)
+    nl = 0
+    NL_ = 130 if quick else 520
+    for n_, viols, variant, name in common.pimap(
+            long_worker, [(v, nm, NL_) for v in ("plain", "event", "notify")
+                          for nm in LONG_W]):
+        nl += n_
+        for v in viols[:3]:
+            ctx.violation("C10:%s:%s" % (variant, v[0]),
+                          "weighted tally (%s), series '%s' %s: %s" % (
+                              variant, name, v[1], str(v[2])[:300]),
+                          {"kind": "long", "variant": variant, "name": name,
+                           "N": NL_})
+    ctx.part("long series (every n up to 70, marks up to %d; 1..40 closed "
+             "intervals)" % NL_, checkpoints=nl, series=list(LONG_W))
+    nodes += nl
     ctx.coverage.update(
         evaluations=nodes + nts, distinct_nontrivial=nontriv + nts,
         rule="weighted: all histories of length <= %d over (weight in %s) x "
@@ -682,6 +759,9 @@ def run(ctx):
 def replay(data):
     if data.get("kind") == "reinit":
         return reinit_listener_check()[1] or None
+    if data.get("kind") == "long":
+        return long_worker((data["variant"], data["name"],
+                            data["N"]))[1][:3] or None
     if data.get("kind") == "x":
         out = []
         for w in XW:
